@@ -91,6 +91,12 @@ impl LocalFunction {
                 InstrLocId::new(pos as u32)
             };
             validator.op(pos, &inst)?;
+            // The validator only reports operators that follow the function's
+            // final `end` once it is finished; there is no frame left to
+            // append them to, so reject the body here.
+            if ctx.controls.is_empty() {
+                anyhow::bail!("operators remaining after end of function");
+            }
             append_instruction(&mut ctx, inst, loc);
             instruction_mapping.insert(pos - code_address_offset, loc);
         }
